@@ -378,5 +378,94 @@ def run(ctx):
         if r:
             ctx.violation(r[0], {"element": name, "mesh": meshes.mesh_descr(m), "detail": r[1]},
                           {"what": "mapped-derivative", "element": name.split("(")[0]})
+    # ---- ElementVector around EVERY family (globally defined, H(div), H(curl) too): slot by slot the wrapper delivers
+    # the inner element's field in component n and zeros elsewhere, and no field where the inner element has none
+    # (a derivative field that moves to another slot is no longer the derivative of the delivered value)
+    for it in range(ctx.scale(40, 300)):
+        if ctx.time_left(0.985) < 0:
+            break
+        kind = rng.choice(["line", "tri", "quad", "tet", "hex"])
+        cands = [(n, f) for (n, f) in elements.pool()[kind] if "Skeleton" not in n]
+        special = [(n, f) for (n, f) in cands if elements.family(f()) in ("global", "hdiv", "hcurl")]
+        n1, f1 = rng.choice(special) if special and rng.random() < 0.5 else rng.choice(cands)
+        name = f"ElementVector({n1})"
+        try:
+            inner = f1()
+            if elements.family(inner) == "global" and kind in ("quad", "hex"):
+                continue
+            ncomp = rng.choice([None, 1, 2, 3])
+            e = ElementVector(inner) if ncomp is None else ElementVector(inner, ncomp)
+            m, info = meshes.gen_first_order(rng, kind, holes=False)
+            mp = m.mapping()
+            X = exact_points(rng, kind, 3) if "exact_points" in globals() else None
+            if X is None:
+                from ..c15hist import ref_points
+                X = ref_points(rng, kind, 3)
+            nb = int(sum(inner._bfun_counts()))
+            i = rng.randrange(nb * e.dim)
+            ind, comp = i // e.dim, i % e.dim
+            tind = np.array([rng.randrange(m.nelements)], dtype=np.int64)
+            fin = inner.gbasis(mp, X, ind, tind)[0].astuple
+            fout = e.gbasis(mp, X, i, tind)[0].astuple
+            ctx.case({"element": name, "ncomp": ncomp, "i": i, "t": m.t.tolist()}, nontrivial=True)
+            ctx.count("vector-wrapper-slots:" + elements.family(inner))
+            bad = None
+            if len(fin) != len(fout):
+                bad = "number of field slots differs"
+            for k, (a, b_) in enumerate(zip(fin, fout)):
+                if bad:
+                    break
+                if (a is None) != (b_ is None):
+                    bad = f"slot {k}: inner element {'has no' if a is None else 'has a'} field, wrapper " \
+                          f"{'has none' if b_ is None else 'has one'}"
+                elif a is not None:
+                    a, b_ = np.asarray(a), np.asarray(b_)
+                    want = np.zeros((e.dim,) + a.shape)
+                    want[comp] = a
+                    if b_.shape != want.shape or not np.array_equal(b_, want):
+                        bad = f"slot {k}: wrapper field is not the inner field in component {comp}"
+            if bad:
+                ctx.violation("ElementVector does not deliver the wrapped element's fields slot by slot",
+                              {"element": name, "components": ncomp, "basis_function": i, "detail": bad,
+                               "mesh": meshes.mesh_descr(m)},
+                              {"what": "vector-wrapper-slots", "element": n1.split("(")[0]})
+        except Exception as ex:
+            ctx.violation("gbasis of a vector wrapper raised " + exc_kind(ex), {"element": name, "err": repr(ex)},
+                          {"what": "raise-gbasis", "element": name})
+    # ---- points stored as INTEGERS (vertex / lumping rules written with integer literals): same values and
+    # derivatives as with the same points stored as floats, also for a float call on the same object afterwards
+    import skfem
+    RDP = {"line": skfem.refdom.RefLine, "tri": skfem.refdom.RefTri, "quad": skfem.refdom.RefQuad,
+           "tet": skfem.refdom.RefTet, "hex": skfem.refdom.RefHex, "wedge": skfem.refdom.RefWedge}
+    for kind, lst in elements.pool().items():
+        Xf = np.array(RDP[kind].p, dtype=np.float64)
+        Xi = np.rint(Xf).astype(np.int64)
+        if not np.array_equal(Xi, Xf):
+            continue
+        for name, fac in lst:
+            if "Skeleton" in name or ctx.time_left(0.995) < 0:
+                continue
+            try:
+                e_int, e_flt = fac(), fac()
+                if not hasattr(e_int, "lbasis") or elements.family(e_int) == "global":
+                    continue
+                nb = int(sum(e_int._bfun_counts()))
+                ctx.count("integer-typed-points")
+                for i in range(nb):
+                    a = [np.asarray(v, dtype=float) for v in e_int.lbasis(Xi, i)]
+                    a2 = [np.asarray(v, dtype=float) for v in e_int.lbasis(Xf, i)]     # same object, now floats
+                    b_ = [np.asarray(v, dtype=float) for v in e_flt.lbasis(Xf, i)]
+                    for lab, u_ in (("integer-typed points", a), ("float points after an integer-typed call", a2)):
+                        if any(x.shape != y.shape or not np.allclose(x, y, rtol=1e-13, atol=1e-13, equal_nan=True)
+                               for x, y in zip(u_, b_)):
+                            ctx.violation("lbasis at " + lab + " differs from lbasis at the same points stored as "
+                                          "floats on a fresh object", {"element": name, "basis_function": i,
+                                                                       "points": Xi.tolist()},
+                                          {"what": "integer-points", "element": name.split("(")[0]})
+                            raise StopIteration
+            except StopIteration:
+                pass
+            except Exception as ex:
+                ctx.count("integer-typed-points:raises:" + exc_kind(ex))
     if ctx.tier == "thorough" and not getattr(ctx, "no_lean", False):
         ctx.leanchecker(["SkfemVerif.Props.C09"])
